@@ -110,7 +110,7 @@ def run(spec, ctx):
     if spec["mode"] == "synthetic":
         for i in range(spec["n"]):
             table = iogen.gen_table(rng)
-            path = os.path.join(root, "pte_%d.h" % i)
+            path = os.path.join(root, "pte_%d.h" % (i % 3))      # paths are reused: the file is rewritten with another table
             im.write_pte_table(path, table, rng, style=rng.randrange(4))
             TABLES[os.path.abspath(path)] = iogen.model_table(table)
             for _ in range(12):
@@ -120,8 +120,6 @@ def run(spec, ctx):
                 ctx.case(repr(table) + data.hex(), any(data[k:k + 8] != b"\0" * 8 for k in range(0, len(data) - 7, 8)),
                          sample={"table": [list(t) for t in table][:3], "data_hex": data[:32].hex()} if i == 0 else None)
                 ilog.parse_ilog_data(memoryview(data) if rng.random() < 0.5 else data, path)
-            os.unlink(path)
-            del TABLES[os.path.abspath(path)]
         return
     from io_drawer.drawer_type import MEX_DRAWER_TYPE, NIMITZ_DRAWER_TYPE
     dt = MEX_DRAWER_TYPE if spec["which"] == "mex" else NIMITZ_DRAWER_TYPE
